@@ -123,13 +123,15 @@ class Spec:
         st, hp = State(), Heap()
         A0 = osyris.Array(np.array([1.0, 2.0, 3.0], dtype=dt), unit="m", name="A0")
         V0 = osyris.Vector(np.array([1.0, 2.0, 3.0], dtype=dt), np.array([4.0, 5.0, 6.0], dtype=dt), unit="m", name="V0")
-        st.slots = {"A0": A0, "V0": V0, "G0": osyris.Datagroup(), "G1": osyris.Datagroup(), "DS": osyris.Dataset(), "X": None}
+        A1 = osyris.Array(np.array([50.0, 25.0, 200.0], dtype=dt), unit="cm", name="A1")
+        st.slots = {"A0": A0, "A1": A1, "V0": V0, "G0": osyris.Datagroup(), "G1": osyris.Datagroup(), "DS": osyris.Dataset(), "X": None}
         a0 = hp.new_array(3)
+        a1 = hp.new_array(3)
         v0 = hp.new_id("v")
         hp.vectors[v0] = [hp.new_array(3), hp.new_array(3)]
         g0, g1, ds = hp.new_id("g"), hp.new_id("g"), hp.new_id("d")
         hp.groups[g0], hp.groups[g1], hp.datasets[ds] = {}, {}, {}
-        hp.slots = {"A0": a0, "V0": v0, "G0": g0, "G1": g1, "DS": ds, "X": None}
+        hp.slots = {"A0": a0, "A1": a1, "V0": v0, "G0": g0, "G1": g1, "DS": ds, "X": None}
         return st, hp
 
     # ------------------------------------------------------------ traversal
@@ -198,7 +200,7 @@ class Spec:
                 return ["D", ids[id(obj)], [[k, d(v, path + f"[{k}]")] for k, v in obj.items()]]
             return repr(obj)
 
-        for slot in ("A0", "V0", "G0", "G1", "DS", "X"):
+        for slot in ("A0", "A1", "V0", "G0", "G1", "DS", "X"):
             desc[slot] = d(st.slots[slot], slot)
         share = []
         for i in range(len(mems)):
@@ -329,6 +331,37 @@ class Spec:
                         st.slots[tgt] = res
                     if not isinstance(res, osyris.Vector):
                         problems.append(("C17:inplace-vector-result-type", {"type": type(res).__name__}))
+        elif name == "binop":
+            # x (op) y with two persistent objects; nothing may change, and the result must be the physical x op y computed
+            # from their *current* values (an operand converted before and modified in place since must be converted anew)
+            x, _ = slot_obj(op[1])
+            y, _ = slot_obj(op[3])
+            px, dx_, tx = _arr.phys(x)
+            py, dy_, ty = _arr.phys(y)
+            opname = op[2]
+            must_raise = opname in ("add", "sub") and tuple(dx_) != tuple(dy_)
+            try:
+                with np.errstate(all="ignore"):
+                    r = {"add": operator.add, "sub": operator.sub, "mul": operator.mul, "truediv": operator.truediv, "lt": operator.lt}[opname](x, y)
+                raised = None
+            except Exception as e:
+                r, raised = None, type(e).__name__
+            if must_raise or (opname == "lt" and tuple(dx_) != tuple(dy_)):
+                if not raised:
+                    problems.append((f"C17:binop-incompatible-did-not-raise:{opname}", {"op": op, "units": [str(x.unit), str(y.unit)]}))
+            elif raised:
+                problems.append((f"C17:binop-raised:{opname}:{raised}", {"op": op}))
+            else:
+                with np.errstate(all="ignore"):
+                    want = {"add": np.add, "sub": np.subtract, "mul": np.multiply, "truediv": np.divide, "lt": np.less}[opname](px, py)
+                if opname == "lt":
+                    if not np.array_equal(np.asarray(r.values), want):
+                        problems.append(("C17:binop-wrong-value-after-history:lt", {"op": op, "got": np.asarray(r.values).tolist(), "expected": want.tolist()}))
+                else:
+                    got, gd, gt = _arr.phys(r)
+                    if not _arr.close(got, want, 1e-12 + tx + ty + gt):
+                        problems.append((f"C17:binop-wrong-value-after-history:{opname}", {"op": op, "got": np.ravel(got).tolist(), "expected": np.ravel(want).tolist()}))
+            ret = "binop"
         elif name == "sortby":
             g, gid = slot_obj(op[1])
             members = hp.groups[gid]
@@ -497,6 +530,12 @@ def ops_for(thorough):
         ops.append(["derive", how, src])
     ops.append(["sortby", "G0"])
     ops.append(["sortby", "G1"])
+    # a persistent right operand in another unit: used, modified in place, used again
+    for o in ("add", "mul", "lt"):
+        ops.append(["binop", "A0", o, "A1"])
+    ops.append(["binop", "A1", "add", "A0"])
+    for o, q in (("imul", "float"), ("imul", "other_dim"), ("iadd", "compat")):
+        ops.append(["inplace", "A1", o, q])
     return ops
 
 
